@@ -808,6 +808,8 @@ def _group_func_wrap(
         mask = _val_to_numpy(mask)
         if mask.dtype.kind in "ui":
             fancy_indexing = True
+        elif len(mask) != len(group_key):
+            raise ValueError("Mask must have the same length as group_key")
 
     values, orig_types = zip(*list(map(_cast_timestamps_to_ints, values)))
     orig_type = orig_types[0]
@@ -1086,6 +1088,22 @@ def group_nearby_members(
 # ===== Rolling Aggregation Methods =====
 
 
+def _check_row_aligned_lengths(group_key, values, mask):
+    """
+    The row-aligned kernels index values and mask with the positions of the group key,
+    so a length mismatch would read out of bounds.
+    """
+    n_values = sum(len(v) for v in values)
+    if n_values != len(group_key):
+        raise ValueError(
+            f"Length of values ({n_values}) does not match length of group_key ({len(group_key)})"
+        )
+    if mask is not None and len(mask) != len(group_key):
+        raise ValueError(
+            f"Length of mask ({len(mask)}) does not match length of group_key ({len(group_key)})"
+        )
+
+
 def _apply_rolling(
     operation: str,
     group_key: ArrayType1D,
@@ -1161,6 +1179,8 @@ def _apply_rolling(
     null_value = _null_value_for_numpy_type(values[0].dtype)
     if allow_downcasting and not values_are_times:
         null_value = np.nan
+
+    _check_row_aligned_lengths(group_key, values, mask)
 
     kwargs = kwargs | locals()
     kwargs = {k: kwargs[k] for k in signature(rolling_1d_func).parameters}
@@ -1758,6 +1778,8 @@ def _apply_cumulative(
     values = _val_to_numpy(values, as_list=True)
     values, orig_dtypes = zip(*list(map(_cast_timestamps_to_ints, values)))
     orig_dtype = orig_dtypes[0]
+
+    _check_row_aligned_lengths(group_key, values, mask)
 
     target = _build_target_for_groupby(
         # counts do not depend on the type of the values
